@@ -8,6 +8,15 @@ claimed = {
    technique='stateless model checking of the real code: all interleavings (happens-before state cache) and deviation-bounded DFS under a controlled scheduler',
    text='Every interleaving of the scripted 2-3 thread (thorough: 4 thread) lock/unlock scripts on the real StarvingMutex/DAGMutex/Counter/Stack code is executed under the controlled scheduler; a holder-set monitor checks exclusion at every grant, every script must complete (a lost wake-up is a deadlock), misuse scripts must panic or leave the state untouched, waits must return only if their condition held inside the call. Bounded part: preemption bound 2 (quick) / 3 (thorough); unbounded part: all interleavings with state caching where it completes within the deadline.',
    note='Trusted: the vsync/vatomic shims model sync faithfully (selftest), sequential consistency, instrumentation covers every synchronisation operation of the packages in scope (vinstr fails loudly otherwise).', ref='2 C17'),
+
+ 'C16': dict(cat='model_checking', engine='S',
+   technique='stateless model checking of the real code under a controlled scheduler: delay-bounded DFS over all interleavings with a happens-before state cache',
+   text='13 closed scenarios (submit/submit-then-shutdown, submit racing shutdown, nested submit, WaitIsZero, restart, group WaitChildren; 1-2 workers, cancel flag on/off) are run on the real WorkerPool/Group code; every schedule with at most 3 (quick) / 4 (thorough) deviations from the default schedule is executed. Oracles: no task runs twice or after shutdown completion was observed, accepted == run (or cancelled), pending counter returns to 0, every call returns (deadlock = violation), WaitChildren does not return while a task submitted before the call is pending.',
+   note='Trusted: shim fidelity (selftest), sequential consistency, runtime/debug disabled. Four genuine defects are listed in known_findings.json (lost wake-up in Stack.SignalShutdown, Submit-vs-Shutdown window, restart deadlock).', ref='2 C16'),
+ 'C08': dict(cat='model_checking', engine='S',
+   technique='stateless model checking of the real code under a controlled scheduler (virtual clock for the batch time-out): delay-bounded DFS with a happens-before state cache',
+   text='Producers, Flush, one or two StopBatchWriter callers and the writer goroutine of the real BatchedWriter over the real mapdb are explored for queue sizes 0-2 and batch sizes 1-2 with at most 2 (quick) / 3 (thorough) deviations (early time-out firing is a deviation). Oracle on the recorded log: BatchWrite -> store commit -> BatchWriteDone per scheduling, nothing after Stop returned, store contents == last BatchWrite, every Enqueue that returned before Stop was invoked is written, every call returns.',
+   note='Trusted: shim fidelity incl. timers (selftest); harness object implements the scheduled flag as atomic test-and-set. Two genuine defects were repaired (fix: commits a4707ca, 3cdaa7b).', ref='2 C08'),
 }
 na_reason = 'check not built yet in this round (engine exists; see DESIGN.md section 9 for the order of work)'
 checks = []
